@@ -350,3 +350,16 @@ def check_reader(F, fn, N, src=POP, value_of_ret=None):
     if classes != want:
         raise No("path classes %s differ from the specification's %s" % (sorted(classes ^ want), "accept/err/overlong set"))
     return {"N": N, "K": K, "paths": len(fps)}
+
+
+def is_helper(fn):
+    """integer helpers that are verified on their own by BIT (for all values) and therefore kept as calls, not inlined, by the path rules"""
+    if writer_sig(fn):
+        return True
+    if fn.name.startswith("try_take_varint_u") and fn.name[-1].isdigit():
+        return True
+    if fn.argc == 1 and len(fn.locals) > 1:
+        a, r = fn.locals[1]["ty"], fn.locals[0]["ty"]
+        if (a in IW and r in UW) or (a in UW and r in IW):
+            return True
+    return False
